@@ -80,7 +80,10 @@ def fill_coverage(run, tier):
         "mode global|overlap|dialign; sound-class or plain-token scoring incl. random score dictionaries; a seeded "
         "history of 0..%d calls of iterate_similar_gap_sites / iterate_clusters / iterate_orphans / "
         "iterate_all_sequences / swap_check with random parameters), once with the real profile aligner recorded and "
-        "replayed, once with the aligner replaced by a random valid alignment; plus random wordlists with arbitrary "
+        "replayed, once with the aligner replaced by a random valid alignment (incl. a sub-stream with negative token scores "
+        "where the score grows with the gap weight); an exhaustive small scope (5 tiny sequence sets x EVERY guide tree x "
+        "EVERY sequence of valid answers of the profile aligner during prog_align: 2012 cases, quick runs 1/24 of them "
+        "chosen by the seed); plus random wordlists with arbitrary "
         "cognate-set structure for Alignments.align.  Compared after EVERY call.  Non-trivial (C04) = at least two "
         "unique class strings and a gap in the final alignment; (C11) = at least one end-of-pass refinement call whose "
         "candidate differs from the alignment before it; (Alignments) = a multi-member set with a gap and a word "
